@@ -3,7 +3,8 @@
    against the predicates of ConstellationOps.  All traces of a run are in one JSON file
    (IOEnv.TRACE_FILE), one TLC run validates them all (tid chosen by the first step).
 
-   A trace  [kind, m, d, events]  is the history of ONE object:
+   A trace  [kind, m, d, frac, events]  is the history of ONE object (frac: the cardinality handed to the constructor was
+   NOT an integer - m is its integer part - and must be rejected whatever m is):
      construct  [out, tab, tabok, scale, scaleok, kok]   constructor call (kok: the object reports M points and K = log2 M bits); out = "ok" | "raised:<Type>";
                 tab = recorded table label -> integer coordinate (tabok: all coordinates were
                 integral at 1e-9), scale = exact rational (amplitude per lattice unit)^2 resp. radius^2
@@ -100,10 +101,10 @@ TableMis(op, gg, e) ==
               ELSE <<Mis("UnitEnergy", "none", 0, "mean energy 1", e.scale)>>)
 TableGood(gg, e) == e.tabok /\ Bijective(gg, e.tab)
 
-Accepted(t) == Supported(t.kind, t.m) \/ (t.kind = "QAM" /\ t.m = 1)
+Accepted(t) == (Supported(t.kind, t.m) \/ (t.kind = "QAM" /\ t.m = 1))
 
 DoConstruct(t, e) ==
-  LET sup == Supported(t.kind, t.m)
+  LET sup == Supported(t.kind, t.m) /\ ~t.frac      \* frac: the requested cardinality was not an integer (m = its integer part)
       okc == e.out = "ok"
       gg  == IF Accepted(t) THEN Geo(t.kind, t.m) ELSE NoGeo
       gd  == okc /\ Accepted(t) /\ TableGood(gg, e)
